@@ -271,7 +271,10 @@ func projectColumns(selectList sql.SelectList, qfields storage.Fields, rows []*s
 				field = &storage.Field{Column: "count(*)"}
 			}
 		case sql.ColumnReference:
-			field = qfields[lookup[elem]]
+			// copy the field: the same column may be selected more than once,
+			// each time under its own alias
+			f := *qfields[lookup[elem]]
+			field = &f
 		default:
 			field = &storage.Field{Column: "?"}
 		}
